@@ -120,8 +120,15 @@ pub fn tcp_admits(s: &tcp::Signature, o: &tcp::Signature) -> [bool; 5] {
     [ttl, o.olen == s.olen, mss, win, wsc]
 }
 pub fn tcp_is_instance(s: &tcp::Signature, o: &tcp::Signature) -> bool { !tcp_is_decisive(s, o) && tcp_admits(s, o).iter().all(|x| *x) }
+/// the signature's quirks that apply to a packet of IP version `v`: df, id+, id-, 0+ are ignored for IPv6, flow for IPv4
+pub fn sig_quirks_for(v: IpVersion, qs: &[Quirk]) -> Vec<Quirk> {
+    qs.iter().filter(|q| match v {
+        IpVersion::V6 => !matches!(q, Quirk::Df | Quirk::NonZeroID | Quirk::ZeroID | Quirk::MustBeZero),
+        IpVersion::V4 => !matches!(q, Quirk::FlowID),
+        IpVersion::Any => true }).cloned().collect()
+}
 pub fn tcp_is_decisive(s: &tcp::Signature, o: &tcp::Signature) -> bool {
-    !(s.version == IpVersion::Any || o.version == s.version) || o.olayout != s.olayout || o.quirks != s.quirks
+    !(s.version == IpVersion::Any || o.version == s.version) || o.olayout != s.olayout || o.quirks != sig_quirks_for(o.version, &s.quirks)
         || !(s.pclass == PayloadSize::Any || o.pclass == s.pclass)
 }
 pub fn hdr_is_instance(sig: &[Header], obs: &[Header]) -> bool {
@@ -195,6 +202,7 @@ pub fn g_tcp_sig(r: &mut Rng) -> tcp::Signature {
 pub fn g_tcp_instance(r: &mut Rng, s: &tcp::Signature, lit: bool) -> tcp::Signature {
     let mut o = s.clone();
     if s.version == IpVersion::Any { o.version = if r.chance(1, 2) { IpVersion::V4 } else { IpVersion::V6 }; }
+    o.quirks = sig_quirks_for(o.version, &s.quirks);
     let init = ttl_initial(&s.ittl);
     let as_value = matches!(s.ittl, Ttl::Value(_));
     if (as_value || !lit) && r.chance(2, 3) && init <= 255 {
